@@ -276,7 +276,7 @@ fn adversarial_with(bytes: &[u8], triggers: bool, stable: bool) -> (String, usiz
 }
 
 /// recursion to and past the frame limit with `temps` live temporaries per frame
-fn depth_program(bytes: &[u8], triggers: bool) -> String {
+pub fn depth_program(bytes: &[u8], triggers: bool) -> String {
     let mut rd = Rd::new(bytes, 1000);
     let depth = 55 + rd.below(20);
     let temps = if triggers { 200 + rd.below(55) } else { rd.below(200) };
